@@ -110,6 +110,32 @@ mod nftv {
     impl Ownable for NftVotes {}
 }
 
+/// The votes module on its own: voting units (u128) moved by the integrator's calls, no token underneath.
+mod bare {
+    use soroban_sdk::{contract, contractimpl, Address, Env};
+    use stellar_governance::votes::{transfer_voting_units, Votes};
+
+    #[contract]
+    pub struct BareVotes;
+
+    #[contractimpl]
+    impl BareVotes {
+        pub fn __constructor(_e: &Env, _owner: Address) {}
+        pub fn mint(e: &Env, to: Address, amount: u128) {
+            transfer_voting_units(e, None, Some(&to), amount);
+        }
+        pub fn burn(e: &Env, from: Address, amount: u128) {
+            transfer_voting_units(e, Some(&from), None, amount);
+        }
+        pub fn transfer(e: &Env, from: Address, to: Address, amount: u128) {
+            transfer_voting_units(e, Some(&from), Some(&to), amount);
+        }
+    }
+
+    #[contractimpl(contracttrait)]
+    impl Votes for BareVotes {}
+}
+
 const NOW0: u32 = 2;
 const OWNER: &str = "o";
 const NO_TOKEN: u32 = 4_000_000;
@@ -120,6 +146,7 @@ enum Fl {
     Example,
     FtBurn,
     Nft,
+    Bare,
 }
 
 struct Sys {
@@ -153,6 +180,10 @@ macro_rules! with_client {
                 let $cl = nftv::NftVotesClient::new(&$sys.e, &$sys.c);
                 $body
             }
+            Fl::Bare => {
+                let $cl = bare::BareVotesClient::new(&$sys.e, &$sys.c);
+                $body
+            }
         }
     }};
 }
@@ -183,6 +214,7 @@ impl Sys {
             "fungible" => (e.register(fvotes::ExampleContract, (o,)), Fl::Example),
             "fungible_burn" => (e.register(ftburn::FtVotesBurn, (o,)), Fl::FtBurn),
             "nft" => (e.register(nftv::NftVotes, (o,)), Fl::Nft),
+            "bare" => (e.register(bare::BareVotes, (o,)), Fl::Bare),
             f => panic!("flavour {f}"),
         };
         Sys { e, names, accts: accts.to_vec(), c, fl, flavour: flavour.to_string(), toks: BTreeMap::new(), edge }
@@ -211,6 +243,12 @@ impl Sys {
         let now = seq(e);
         let edge = self.edge;
         let jint = |v: i128| if edge { fine_units(v, -999_999) } else { jint(v) };
+        // (unsigned 128-bit sources: voting units, votes, totals; None = refused)
+        let ju = |v: Option<u128>| match v {
+            None => json!(-1),
+            Some(v) if edge => fine_units_u(v, -999_999),
+            Some(v) => verif_harness::jint(v.min(i128::MAX as u128) as i128),
+        };
         let mut bal = JMap::new();
         let mut units = JMap::new();
         let mut deleg = JMap::new();
@@ -222,6 +260,7 @@ impl Sys {
                 Fl::Example => num(|| fvotes::ExampleContractClient::new(e, &self.c).try_balance(&ad)).unwrap_or(-1),
                 Fl::FtBurn => num(|| ftburn::FtVotesBurnClient::new(e, &self.c).try_balance(&ad)).unwrap_or(-1),
                 Fl::Nft => num(|| nftv::NftVotesClient::new(e, &self.c).try_balance(&ad)).map(|v| v as i128).unwrap_or(-1),
+                Fl::Bare => 0, // (no token: the units themselves are reported as the balance, below)
             };
             bal.insert(a.clone(), jint(b));
             // the voting units have no contract entry point (the `Votes` trait does not expose them):
@@ -230,9 +269,12 @@ impl Sys {
             let u = std::panic::catch_unwind(std::panic::AssertUnwindSafe(|| {
                 e.as_contract(&self.c, || stellar_governance::votes::get_voting_units(e, &ad))
             }));
-            units.insert(a.clone(), jint(u.map(|v| v as i128).unwrap_or(-1)));
+            if self.fl == Fl::Bare {
+                bal.insert(a.clone(), ju(u.as_ref().ok().copied()));
+            }
+            units.insert(a.clone(), ju(u.ok()));
             with_client!(self, cl => {
-                votes.insert(a.clone(), jint(num(|| cl.try_get_votes(&ad)).map(|v| v as i128).unwrap_or(-1)));
+                votes.insert(a.clone(), ju(num(|| cl.try_get_votes(&ad))));
                 let d = match num(|| cl.try_get_delegate(&ad)) {
                     Some(d) => self.names.opt_name(&d),
                     None => "?".to_string(),
@@ -244,20 +286,21 @@ impl Sys {
         let supply: i128 = match self.fl {
             Fl::Example => num(|| fvotes::ExampleContractClient::new(e, &self.c).try_total_supply()).unwrap_or(-1),
             Fl::FtBurn => num(|| ftburn::FtVotesBurnClient::new(e, &self.c).try_total_supply()).unwrap_or(-1),
-            Fl::Nft => -1, // the base NFT has no total supply getter
+            Fl::Nft | Fl::Bare => -1, // the base NFT has no total supply getter
         };
-        let total = with_client!(self, cl => num(|| cl.try_get_total_supply()).map(|v| v as i128).unwrap_or(-1));
+        let total = with_client!(self, cl => num(|| cl.try_get_total_supply()));
+        let supply_j = if self.fl == Fl::Bare { ju(total) } else { jint(supply) };
         // answers about the past (-1: refused)
         let mut past = Vec::new();
         for l in Sys::past_ledgers(now) {
             let mut v = JMap::new();
             for a in &self.accts {
                 let ad = self.names.get(a);
-                let x = with_client!(self, cl => num(|| cl.try_get_votes_at_checkpoint(&ad, &l)).map(|v| v as i128).unwrap_or(-1));
-                v.insert(a.clone(), jint(x));
+                let x = with_client!(self, cl => num(|| cl.try_get_votes_at_checkpoint(&ad, &l)));
+                v.insert(a.clone(), ju(x));
             }
-            let t = with_client!(self, cl => num(|| cl.try_get_total_supply_at_checkpoint(&l)).map(|v| v as i128).unwrap_or(-1));
-            past.push(json!({"l": l, "v": v, "t": jint(t)}));
+            let t = with_client!(self, cl => num(|| cl.try_get_total_supply_at_checkpoint(&l)));
+            past.push(json!({"l": l, "v": v, "t": ju(t)}));
         }
         // the current and future ledgers must be refused
         let refused = |l: u32| -> (&'static str, &'static str) {
@@ -276,8 +319,8 @@ impl Sys {
             fut.push(json!({"l": l, "v": v, "t": t}));
         }
         let (mv, mt) = refused(u32::MAX);
-        json!({"bal": bal, "supply": jint(supply), "units": units, "deleg": deleg, "votes": votes,
-               "total": jint(total), "past": past, "fut": fut, "futmax": {"v": mv, "t": mt}})
+        json!({"bal": bal, "supply": supply_j, "units": units, "deleg": deleg, "votes": votes,
+               "total": ju(total), "past": past, "fut": fut, "futmax": {"v": mv, "t": mt}})
     }
 
     /// Generic invocation by name, for an entry point the flavour's contract does not expose.
@@ -443,6 +486,19 @@ impl Sys {
                 }
                 r
             }
+            // ---- the bare module: unit movements, no authorization of its own ----------------------
+            ("mint", Fl::Bare) | ("burn", Fl::Bare) | ("transfer", Fl::Bare) => {
+                no_auth(e);
+                // (negative amounts, and amounts past u128::MAX, cannot be passed to the contract at all)
+                let uamt: u128 = if n(op, "amt") < 0 || (self.edge && n(op, "amt") > 16 * FINE - 1) { return ("fail", -8) } else if self.edge { fine_amount_u(n(op, "amt")) } else { n(op, "amt") as u128 };
+                let cl = bare::BareVotesClient::new(e, &c);
+                match kind {
+                    "mint" => res_of(&cl.try_mint(&addr("to"), &uamt)),
+                    "burn" => res_of(&cl.try_burn(&addr("from"), &uamt)),
+                    _ => res_of(&cl.try_transfer(&addr("from"), &addr("to"), &uamt)),
+                }
+            }
+            ("approve", Fl::Bare) | ("xfer_from", Fl::Bare) | ("burn_from", Fl::Bare) => ("fail", -9),
             (k, _) => {
                 eprintln!("unknown op {k}");
                 std::process::exit(2)
@@ -527,7 +583,8 @@ fn main() {
             let mut t = Trace::create(&output);
             let mut r = StdRng::seed_from_u64(seed);
             for run in 0..runs {
-                let fl = FLAVOURS[run % 3];
+                // (the bare module - units without a token - is driven by random histories only)
+                let fl = ["fungible", "fungible_burn", "nft", "bare"][run % 4];
                 let nacc = if run % 2 == 0 { 3 } else { 5 };
                 let accts: Vec<String> = ["a", "b", "c", "d", "e"][..nacc].iter().map(|s| s.to_string()).collect();
                 let anames: Vec<&str> = accts.iter().map(|s| s.as_str()).collect();
@@ -538,7 +595,9 @@ fn main() {
                     _ => &[0, 1, 2, 4, 9, 17, 30],
                 };
                 // one run in six of the fungible flavours works at the i128 edge
-                let edge = fl != "nft" && (run / 3) % 6 == 5;
+                let edge = (fl == "bare" && (run / 4) % 2 == 1) || (fl != "nft" && fl != "bare" && (run / 3) % 6 == 5);
+                // the top of the amount type: i128::MAX for the tokens, u128::MAX for bare voting units
+                let top = if fl == "bare" { 16 * FINE - 1 } else { AMAX };
                 let mut sys = Sys::new(fl, &accts, edge);
                 t.reset(reset_event(&sys));
                 // state feedback, from the harness's own view of what succeeded
@@ -582,7 +641,7 @@ fn main() {
                                 1
                             } else if edge {
                                 let total: i64 = bal.values().sum();
-                                *pick(&mut r, &[1i64, 10, FINE, 3 * FINE, 7 * FINE, AMAX - 10, AMAX, AMAX - total, AMAX - total + 1, 0, -1])
+                                *pick(&mut r, &[1i64, 10, FINE, 3 * FINE, 7 * FINE, 8 * FINE.min(top / 2 + 1), top - 10, top, top - total, top - total + 1, 0, -1])
                             } else {
                                 *pick(&mut r, &[1i64, 1, 2, 3, 5, 10, 100, 0, -1])
                             };
